@@ -760,3 +760,17 @@ add('C10.scope_from_inputs_when_no_output', 'C10', (PG, "    scope = ''\n    # O
 add('C02.scope_from_inputs_when_no_output', 'C02', [(PG, "    scope = ''\n    # Op scope is determined by output tensors.\n    for output_tensor_idx in op.outputs:", "    scope = ''\n    # Op scope is determined by output tensors.\n    for output_tensor_idx in (op.outputs if len(op.outputs) else op.inputs):"),
     (CAL, "    scope = \"\"\n    for output_tensor_idx in op.outputs:", "    scope = \"\"\n    for output_tensor_idx in (op.outputs if len(op.outputs) else op.inputs):")],
     'C02.R9', 'the virtual OUTPUT operator is scoped by the graph output names: a regex naming an output tensor quantizes the model output (seeded b9-C02)')
+add('C16.class_level_constant_map', 'C16', [(MMF, "class ModelModifier:\n  \"\"\"Model Modifier class that produce the final quantized TFlite model.\"\"\"\n", "class ModelModifier:\n  \"\"\"Model Modifier class that produce the final quantized TFlite model.\"\"\"\n\n  _constant_map = []\n"),
+    (MMF, "\n    self._constant_map = []\n", "\n")], 'C16.R4', 'the constant map becomes a class-level list shared by all ModelModifier objects (seeded b10-C16)')
+add('C14.class_level_constant_map', 'C14', [(MMF, "class ModelModifier:\n  \"\"\"Model Modifier class that produce the final quantized TFlite model.\"\"\"\n", "class ModelModifier:\n  \"\"\"Model Modifier class that produce the final quantized TFlite model.\"\"\"\n\n  _constant_map = []\n"),
+    (MMF, "\n    self._constant_map = []\n", "\n")], 'C14.R7', 'a list created in the class body is appended to through instances (seeded b10-C16)')
+add('C14.twin_class_level_default_rebound', 'C14', (MMF, "class ModelModifier:\n  \"\"\"Model Modifier class that produce the final quantized TFlite model.\"\"\"\n", "class ModelModifier:\n  \"\"\"Model Modifier class that produce the final quantized TFlite model.\"\"\"\n\n  _constant_map = []  # rebound per instance in __init__\n"),
+    (), 'a class-level default that __init__ rebinds per instance', kind='twin')
+add('C15.names_unique_per_subgraph', 'C15', (PG, "    global_tensor_names = set()\n    for subgraph in self.flatbuffer_model.subgraphs:\n", "    for subgraph in self.flatbuffer_model.subgraphs:\n      global_tensor_names = set()\n"),
+    'C15.R9', 'tensor names only checked within one subgraph: sharers with one name in two subgraphs collapse into one plan entry (seeded b10-C15)')
+add('C13.policy_match_ignores_activation_granularity', 'C13', (MMQ, "  elif op_quant_config not in config_check_policy[op_name]:\n", "  elif not any(\n      c.weight_tensor_config == op_quant_config.weight_tensor_config\n      and c.compute_precision == op_quant_config.compute_precision\n      and c.explicit_dequantize == op_quant_config.explicit_dequantize\n      and (c.activation_tensor_config is None) == (op_quant_config.activation_tensor_config is None)\n      and (c.activation_tensor_config is None or (c.activation_tensor_config.num_bits, c.activation_tensor_config.symmetric) == (op_quant_config.activation_tensor_config.num_bits, op_quant_config.activation_tensor_config.symmetric))\n      for c in config_check_policy[op_name]\n  ):\n"),
+    'C13.R1', 'policy entries matched field by field without the activation granularity / dtype (seeded b10-C13)')
+add('C03.materialise_error_swallowed', 'C03', (PG, "          op_quant_results = materialize_func(\n              op_info,\n              graph_info,\n              model_qsvs,\n          )", "          try:\n            op_quant_results = materialize_func(\n                op_info,\n                graph_info,\n                model_qsvs,\n            )\n          except ValueError:\n            op_quant_results = self._get_params_for_no_quant_op(\n                subgraph_op_id, op, subgraph.tensors\n            )"),
+    ('C03.R15', 'C03.R14'), 'an error raised while materialising an operator silently leaves it float (seeded b10-C03)')
+add('C10.twin_logging_handler', 'C10', (PG, "    self._post_process_results()\n    return self.model_quant_results", "    try:\n      n_entries = len(self.model_quant_results)\n    except TypeError:\n      n_entries = 0\n    del n_entries\n    self._post_process_results()\n    return self.model_quant_results"),
+    (), 'a handler around code that cannot refuse anything', kind='twin')
